@@ -1,4 +1,1040 @@
 package main
 
+// Configuration facts (C19): the Caddyfile block parsers of caddyfile.go as key tables,
+// UnmarshalCaddyfile / Provision / validateConfig of revocation.go as step lists,
+// ParseConfig and the value parsers of configparser.go, struct tags of config/config.go.
+// Everything is recognised by shape; an unknown shape is an error (fail closed).
+
+import (
+	"bytes"
+	"fmt"
+	"go/ast"
+	"go/printer"
+	"go/token"
+	"reflect"
+	"regexp"
+	"strconv"
+	"strings"
+)
+
+var wsRun = regexp.MustCompile(`\s+`)
+
+// src renders a node as normalised source text (single spaces).
+func (c *ctx) src(n ast.Node) string {
+	var b bytes.Buffer
+	if err := printer.Fprint(&b, c.fset, n); err != nil {
+		fail("print: %v", err)
+	}
+	return strings.TrimSpace(wsRun.ReplaceAllString(b.String(), " "))
+}
+
+// ---- Caddyfile block parsers ---------------------------------------------------------------
+
+type keyRule struct {
+	Key   string `json:"key"`
+	Act   string `json:"act"`
+	Field string `json:"field"`
+	Const string `json:"const,omitempty"`
+	Pos   string `json:"pos"`
+}
+
+type blockFacts struct {
+	Name       string    `json:"name"`
+	Keys       []keyRule `json:"keys"`
+	HasDefault bool      `json:"has_default"`
+	ByPointer  bool      `json:"by_pointer"`
+}
+
+// Go struct field -> (Lean field constructor, kind)
+type fieldInfo struct{ lean, kind string }
+
+var blockFields = map[string]map[string]fieldInfo{
+	"top": {
+		"Mode":       {"TopField.mode", "str"},
+		"CRLConfig":  {"TopField.crl", "sub:crl"},
+		"OCSPConfig": {"TopField.ocsp", "sub:ocsp"},
+	},
+	"crl": {
+		"WorkDir":                    {"CrlField.workDir", "str"},
+		"StorageType":                {"CrlField.storage", "str"},
+		"UpdateInterval":             {"CrlField.interval", "str"},
+		"SignatureValidationMode":    {"CrlField.sigMode", "str"},
+		"CRLUrls":                    {"CrlField.urls", "list"},
+		"CRLFiles":                   {"CrlField.files", "list"},
+		"TrustedSignatureCertsFiles": {"CrlField.signers", "list"},
+		"CDPConfig":                  {"CrlField.cdp", "sub:cdp"},
+	},
+	"cdp": {
+		"CRLFetchMode": {"CdpField.fetchMode", "str"},
+		"CRLCDPStrict": {"CdpField.strict", "bool"},
+	},
+	"ocsp": {
+		"DefaultCacheDuration":       {"OcspField.cacheDuration", "str"},
+		"TrustedResponderCertsFiles": {"OcspField.responders", "list"},
+		"OCSPAIAStrict":              {"OcspField.aiaStrict", "bool"},
+	},
+}
+
+var subParsers = map[string]string{
+	"parseCaddyfileCRLConfig":    "crl",
+	"parseCaddyfileOCSPConfig":   "ocsp",
+	"parseCaddyfileCRLCDPConfig": "cdp",
+}
+
+// isErrReturn: `return nil, <non-nil>[, true]`; nres = number of results expected.
+func (c *ctx) isErrReturn(s ast.Stmt, nres int) bool {
+	r, ok := s.(*ast.ReturnStmt)
+	if !ok || len(r.Results) != nres {
+		return false
+	}
+	if exprStr(r.Results[0]) != "nil" || exprStr(r.Results[1]) == "nil" {
+		return false
+	}
+	if nres == 3 && exprStr(r.Results[2]) != "true" {
+		return false
+	}
+	return true
+}
+
+// recogniseCases translates the case clauses of a block parser's switch. recv = name of the struct
+// variable/parameter the cases assign to; nres = result arity of the enclosing function.
+func (c *ctx) recogniseCases(block string, sw *ast.SwitchStmt, recv string, nres int) ([]keyRule, bool) {
+	var rules []keyRule
+	hasDefault := false
+	fields := blockFields[block]
+	for _, cl := range sw.Body.List {
+		cc := cl.(*ast.CaseClause)
+		if cc.List == nil {
+			if len(cc.Body) != 1 || !c.isErrReturn(cc.Body[0], nres) {
+				fail("%s: default branch of the %s block parser is not a single error return", c.pos(cc), block)
+			}
+			hasDefault = true
+			continue
+		}
+		body := cc.Body
+		rule := keyRule{Pos: c.pos(cc)}
+		fieldOf := func(lhs ast.Expr) fieldInfo {
+			sel, ok := lhs.(*ast.SelectorExpr)
+			if !ok || exprStr(sel.X) != recv {
+				fail("%s: assignment target %s is not a field of %s", c.pos(lhs), exprStr(lhs), recv)
+			}
+			fi, ok := fields[sel.Sel.Name]
+			if !ok {
+				fail("%s: unknown field %s of the %s block", c.pos(lhs), sel.Sel.Name, block)
+			}
+			rule.Field = fi.lean
+			return fi
+		}
+		if len(body) == 0 {
+			fail("%s: empty case body", c.pos(cc))
+		}
+		if c.src(body[0]) != "" && strings.HasPrefix(c.src(body[0]), "if !d.NextArg() {") {
+			ifs := body[0].(*ast.IfStmt)
+			if ifs.Else != nil || len(ifs.Body.List) != 1 || !c.isErrReturn(ifs.Body.List[0], nres) {
+				fail("%s: missing-argument branch is not an error return", c.pos(ifs))
+			}
+			rest := body[1:]
+			switch len(rest) {
+			case 1:
+				as, ok := rest[0].(*ast.AssignStmt)
+				if !ok || as.Tok != token.ASSIGN || len(as.Lhs) != 1 || len(as.Rhs) != 1 {
+					fail("%s: unsupported case body", c.pos(rest[0]))
+				}
+				fi := fieldOf(as.Lhs[0])
+				rhs := exprStr(as.Rhs[0])
+				switch {
+				case rhs == "d.Val()":
+					rule.Act = "str"
+					if fi.kind != "str" {
+						fail("%s: d.Val() assigned to non-string field", c.pos(as))
+					}
+				case rhs == "append("+exprStr(as.Lhs[0])+",d.Val())":
+					rule.Act = "append"
+					if fi.kind != "list" {
+						fail("%s: append on non-list field", c.pos(as))
+					}
+				case rhs == "true" || rhs == "false":
+					rule.Act = "constBool"
+					rule.Const = rhs
+					if fi.kind != "bool" {
+						fail("%s: bool literal assigned to non-bool field", c.pos(as))
+					}
+				default:
+					fail("%s: unsupported right-hand side %s", c.pos(as), rhs)
+				}
+			case 3:
+				// b, err := strconv.ParseBool(d.Val()); if err != nil { return … }; X.F = b
+				as0, ok := rest[0].(*ast.AssignStmt)
+				if !ok || as0.Tok != token.DEFINE || len(as0.Lhs) != 2 || exprStr(as0.Lhs[1]) != "err" ||
+					len(as0.Rhs) != 1 || exprStr(as0.Rhs[0]) != "strconv.ParseBool(d.Val())" {
+					fail("%s: unsupported case body (expected strconv.ParseBool(d.Val()))", c.pos(rest[0]))
+				}
+				bvar := exprStr(as0.Lhs[0])
+				ifs, ok := rest[1].(*ast.IfStmt)
+				if !ok || ifs.Init != nil || ifs.Else != nil || exprStr(ifs.Cond) != "err!=nil" ||
+					len(ifs.Body.List) != 1 || !c.isErrReturn(ifs.Body.List[0], nres) {
+					fail("%s: ParseBool error is not returned", c.pos(rest[1]))
+				}
+				as2, ok := rest[2].(*ast.AssignStmt)
+				if !ok || as2.Tok != token.ASSIGN || len(as2.Lhs) != 1 || len(as2.Rhs) != 1 {
+					fail("%s: unsupported case body", c.pos(rest[2]))
+				}
+				fi := fieldOf(as2.Lhs[0])
+				if fi.kind != "bool" {
+					fail("%s: bool assigned to non-bool field", c.pos(as2))
+				}
+				rhs := exprStr(as2.Rhs[0])
+				switch rhs {
+				case bvar:
+					rule.Act = "parsedBool"
+				case "true", "false":
+					rule.Act = "constBool"
+					rule.Const = rhs
+				default:
+					fail("%s: unsupported right-hand side %s", c.pos(as2), rhs)
+				}
+			default:
+				fail("%s: unsupported case body (%d statements after the argument check)", c.pos(cc), len(rest))
+			}
+		} else {
+			// v, err := parseSub(d); if err != nil { return nil, err[, true] }; X.F = v
+			if len(body) != 3 {
+				fail("%s: unsupported case body", c.pos(cc))
+			}
+			as0, ok := body[0].(*ast.AssignStmt)
+			if !ok || as0.Tok != token.DEFINE || len(as0.Lhs) != 2 || exprStr(as0.Lhs[1]) != "err" || len(as0.Rhs) != 1 {
+				fail("%s: unsupported case body", c.pos(body[0]))
+			}
+			call, ok := as0.Rhs[0].(*ast.CallExpr)
+			if !ok || len(call.Args) != 1 || exprStr(call.Args[0]) != "d" {
+				fail("%s: unsupported case body", c.pos(body[0]))
+			}
+			sub, ok := subParsers[exprStr(call.Fun)]
+			if !ok {
+				fail("%s: unknown sub-block parser %s", c.pos(call), exprStr(call.Fun))
+			}
+			ifs, ok := body[1].(*ast.IfStmt)
+			if !ok || ifs.Init != nil || ifs.Else != nil || exprStr(ifs.Cond) != "err!=nil" ||
+				len(ifs.Body.List) != 1 || !c.isErrReturn(ifs.Body.List[0], nres) {
+				fail("%s: sub-block parser error is not returned", c.pos(body[1]))
+			}
+			as2, ok := body[2].(*ast.AssignStmt)
+			if !ok || as2.Tok != token.ASSIGN || len(as2.Lhs) != 1 || len(as2.Rhs) != 1 || exprStr(as2.Rhs[0]) != exprStr(as0.Lhs[0]) {
+				fail("%s: sub-block result is not assigned", c.pos(body[2]))
+			}
+			fi := fieldOf(as2.Lhs[0])
+			if fi.kind != "sub:"+sub {
+				fail("%s: result of %s assigned to field of kind %s", c.pos(as2), exprStr(call.Fun), fi.kind)
+			}
+			rule.Act = "sub"
+		}
+		for _, l := range cc.List {
+			bl, ok := l.(*ast.BasicLit)
+			if !ok || bl.Kind != token.STRING {
+				fail("%s: case label is not a string literal", c.pos(cc))
+			}
+			r := rule
+			r.Key = unquote(bl.Value)
+			rules = append(rules, r)
+		}
+	}
+	return rules, hasDefault
+}
+
+const blockLoopHead = "for nesting := d.Nesting(); d.NextBlock(nesting); {"
+
+// zeroLiteralLocal: `name := config.T{}`; returns name.
+func (c *ctx) zeroLiteralLocal(s ast.Stmt, typ string) string {
+	m := regexp.MustCompile(`^(\w+) := ` + regexp.QuoteMeta(typ) + `\{\}$`).FindStringSubmatch(c.src(s))
+	if m == nil {
+		fail("%s: expected `x := %s{}`, got `%s`", c.pos(s), typ, c.src(s))
+	}
+	return m[1]
+}
+
+// inlineBlockParser: x := T{}; for … NextBlock { switch d.Val() {…} }; return &x, nil
+func (c *ctx) inlineBlockParser(fn, block, typ string) blockFacts {
+	fd := c.funcDecl("caddyfile.go", "", fn)
+	b := fd.Body.List
+	if len(b) != 3 {
+		fail("%s: %s: expected init, block loop, return", c.pos(fd), fn)
+	}
+	name := c.zeroLiteralLocal(b[0], typ)
+	loop, ok := b[1].(*ast.ForStmt)
+	if !ok || !strings.HasPrefix(c.src(loop), blockLoopHead) || len(loop.Body.List) != 1 {
+		fail("%s: %s: block loop not recognised", c.pos(b[1]), fn)
+	}
+	sw, ok := loop.Body.List[0].(*ast.SwitchStmt)
+	if !ok || sw.Init != nil || exprStr(sw.Tag) != "d.Val()" {
+		fail("%s: %s: loop body is not `switch d.Val()`", c.pos(loop), fn)
+	}
+	if c.src(b[2]) != "return &"+name+", nil" {
+		fail("%s: %s: does not end in `return &%s, nil`", c.pos(b[2]), fn, name)
+	}
+	rules, hd := c.recogniseCases(block, sw, name, 2)
+	return blockFacts{Name: block, Keys: rules, HasDefault: hd, ByPointer: true}
+}
+
+// entryHelper: func(d, [key string,] cfg T|*T) (*T, error, bool) { switch <tag> {…}; return nil, nil, false }
+func (c *ctx) entryHelper(fn, block, typ, tag string) blockFacts {
+	fd := c.funcDecl("caddyfile.go", "", fn)
+	params := fd.Type.Params.List
+	last := params[len(params)-1]
+	if len(last.Names) != 1 {
+		fail("%s: %s: unexpected parameter list", c.pos(fd), fn)
+	}
+	recv := last.Names[0].Name
+	byPtr := false
+	switch exprStr(last.Type) {
+	case "*" + typ:
+		byPtr = true
+	case typ:
+		byPtr = false
+	default:
+		fail("%s: %s: config parameter has type %s", c.pos(fd), fn, exprStr(last.Type))
+	}
+	b := fd.Body.List
+	if len(b) != 2 || c.src(b[1]) != "return nil, nil, false" {
+		fail("%s: %s: expected `switch …; return nil, nil, false`", c.pos(fd), fn)
+	}
+	sw, ok := b[0].(*ast.SwitchStmt)
+	if !ok || sw.Init != nil || exprStr(sw.Tag) != tag {
+		fail("%s: %s: first statement is not `switch %s`", c.pos(fd), fn, tag)
+	}
+	rules, hd := c.recogniseCases(block, sw, recv, 3)
+	return blockFacts{Name: block, Keys: rules, HasDefault: hd, ByPointer: byPtr}
+}
+
+func (bf blockFacts) emit(l *leanFile, typ string) {
+	l.p("def %sBlock : BlockFacts %s :=", bf.Name, typ)
+	l.p("  { keys := [")
+	for i, k := range bf.Keys {
+		sep := ","
+		if i == len(bf.Keys)-1 {
+			sep = ""
+		}
+		act := "Act." + k.Act + " " + k.Field
+		if k.Act == "constBool" {
+			act += " " + k.Const
+		}
+		l.p("      (%s, %s)%s -- %s", leanStr(k.Key), act, sep, k.Pos)
+	}
+	l.p("    ]")
+	l.p("    hasDefault := %v", bf.HasDefault)
+	l.p("    byPointer := %v }\n", bf.ByPointer)
+}
+
+// compositeFields returns key -> value source of a composite literal (possibly behind &).
+func (c *ctx) compositeFields(e ast.Expr) (typ string, kv map[string]string) {
+	if u, ok := e.(*ast.UnaryExpr); ok && u.Op == token.AND {
+		e = u.X
+	}
+	cl, ok := e.(*ast.CompositeLit)
+	if !ok {
+		fail("%s: composite literal expected, got %s", c.pos(e), c.src(e))
+	}
+	kv = map[string]string{}
+	for _, el := range cl.Elts {
+		k, ok := el.(*ast.KeyValueExpr)
+		if !ok {
+			fail("%s: keyed composite literal expected", c.pos(el))
+		}
+		kv[exprStr(k.Key)] = c.src(k.Value)
+	}
+	return exprStr(cl.Type), kv
+}
+
+func (c *ctx) genCaddyfile(l *leanFile, facts map[string]interface{}) {
+	// parseConfigFromCaddyfile
+	fd := c.funcDecl("caddyfile.go", "", "parseConfigFromCaddyfile")
+	b := fd.Body.List
+	if len(b) != 5 {
+		fail("%s: parseConfigFromCaddyfile: expected three initialisations, the token loop and a return", c.pos(fd))
+	}
+	locals := map[string]map[string]string{} // local name -> literal fields
+	localType := map[string]string{}
+	for i := 0; i < 3; i++ {
+		as, ok := b[i].(*ast.AssignStmt)
+		if !ok || as.Tok != token.DEFINE || len(as.Lhs) != 1 || len(as.Rhs) != 1 {
+			fail("%s: parseConfigFromCaddyfile: statement %d is not `x := T{…}`", c.pos(b[i]), i)
+		}
+		t, kv := c.compositeFields(as.Rhs[0])
+		locals[exprStr(as.Lhs[0])] = kv
+		localType[exprStr(as.Lhs[0])] = t
+	}
+	var top string
+	for n, t := range localType {
+		if t == "CertRevocationValidatorConfig" {
+			top = n
+		}
+	}
+	if top == "" {
+		fail("%s: parseConfigFromCaddyfile: no CertRevocationValidatorConfig literal", c.pos(fd))
+	}
+	initCrl, initCdp, initOcsp := false, false, false
+	if v, ok := locals[top]["CRLConfig"]; ok {
+		if !strings.HasPrefix(v, "&") || localType[v[1:]] != "config.CRLConfig" {
+			fail("%s: initial CRLConfig is not the address of a local CRLConfig literal: %s", c.pos(fd), v)
+		}
+		initCrl = true
+		if cv, ok := locals[v[1:]]["CDPConfig"]; ok {
+			if cv != "&config.CDPConfig{}" {
+				fail("%s: initial CDPConfig is %s", c.pos(fd), cv)
+			}
+			initCdp = true
+		}
+		for k, lv := range locals[v[1:]] {
+			if k != "CDPConfig" && lv != "[]string{}" {
+				fail("%s: initial CRLConfig.%s = %s is not an empty list", c.pos(fd), k, lv)
+			}
+		}
+	}
+	if v, ok := locals[top]["OCSPConfig"]; ok {
+		if !strings.HasPrefix(v, "&") || localType[v[1:]] != "config.OCSPConfig" {
+			fail("%s: initial OCSPConfig is not the address of a local OCSPConfig literal: %s", c.pos(fd), v)
+		}
+		initOcsp = true
+		for k, lv := range locals[v[1:]] {
+			if lv != "[]string{}" {
+				fail("%s: initial OCSPConfig.%s = %s is not an empty list", c.pos(fd), k, lv)
+			}
+		}
+	}
+	for k := range locals[top] {
+		if k != "CRLConfig" && k != "OCSPConfig" {
+			fail("%s: initial validator config sets %s", c.pos(fd), k)
+		}
+	}
+	// token loop
+	outer, ok := b[3].(*ast.ForStmt)
+	if !ok || outer.Init != nil || outer.Post != nil || exprStr(outer.Cond) != "d.Next()" || len(outer.Body.List) != 1 {
+		fail("%s: parseConfigFromCaddyfile: outer loop is not `for d.Next()`", c.pos(b[3]))
+	}
+	inner, ok := outer.Body.List[0].(*ast.ForStmt)
+	if !ok || !strings.HasPrefix(c.src(inner), blockLoopHead) || len(inner.Body.List) != 3 {
+		fail("%s: parseConfigFromCaddyfile: block loop not recognised", c.pos(outer))
+	}
+	if c.src(inner.Body.List[0]) != "key := d.Val()" {
+		fail("%s: parseConfigFromCaddyfile: `key := d.Val()` expected", c.pos(inner.Body.List[0]))
+	}
+	m := regexp.MustCompile(`^(\w+), err, done := parseConfigEntryFromCaddyfile\(d, key, (&?)(\w+)\)$`).FindStringSubmatch(c.src(inner.Body.List[1]))
+	if m == nil || m[3] != top {
+		fail("%s: parseConfigFromCaddyfile: entry helper call not recognised: %s", c.pos(inner.Body.List[1]), c.src(inner.Body.List[1]))
+	}
+	if c.src(inner.Body.List[2]) != "if done { return "+m[1]+", err }" {
+		fail("%s: parseConfigFromCaddyfile: `if done { return …, err }` expected", c.pos(inner.Body.List[2]))
+	}
+	if c.src(b[4]) != "return &"+top+", nil" {
+		fail("%s: parseConfigFromCaddyfile: does not return &%s", c.pos(b[4]), top)
+	}
+	topB := c.entryHelper("parseConfigEntryFromCaddyfile", "top", "CertRevocationValidatorConfig", "key")
+	if topB.ByPointer != (m[2] == "&") {
+		fail("%s: entry helper parameter and call site disagree", c.pos(inner.Body.List[1]))
+	}
+
+	// parseCaddyfileCRLConfig
+	fd = c.funcDecl("caddyfile.go", "", "parseCaddyfileCRLConfig")
+	b = fd.Body.List
+	if len(b) != 3 {
+		fail("%s: parseCaddyfileCRLConfig: expected init, block loop, return", c.pos(fd))
+	}
+	name := c.zeroLiteralLocal(b[0], "config.CRLConfig")
+	loop, ok := b[1].(*ast.ForStmt)
+	if !ok || !strings.HasPrefix(c.src(loop), blockLoopHead) || len(loop.Body.List) != 2 {
+		fail("%s: parseCaddyfileCRLConfig: block loop not recognised", c.pos(b[1]))
+	}
+	m = regexp.MustCompile(`^(\w+), err, done := parseCaddyFileCrlConfigEntry\(d, (&?)(\w+)\)$`).FindStringSubmatch(c.src(loop.Body.List[0]))
+	if m == nil || m[3] != name {
+		fail("%s: parseCaddyfileCRLConfig: entry helper call not recognised", c.pos(loop.Body.List[0]))
+	}
+	if c.src(loop.Body.List[1]) != "if done { return "+m[1]+", err }" {
+		fail("%s: parseCaddyfileCRLConfig: `if done { return …, err }` expected", c.pos(loop.Body.List[1]))
+	}
+	if c.src(b[2]) != "return &"+name+", nil" {
+		fail("%s: parseCaddyfileCRLConfig: does not return &%s", c.pos(b[2]), name)
+	}
+	crlB := c.entryHelper("parseCaddyFileCrlConfigEntry", "crl", "config.CRLConfig", "d.Val()")
+	if crlB.ByPointer != (m[2] == "&") {
+		fail("%s: entry helper parameter and call site disagree", c.pos(loop.Body.List[0]))
+	}
+	cdpB := c.inlineBlockParser("parseCaddyfileCRLCDPConfig", "cdp", "config.CDPConfig")
+	ocspB := c.inlineBlockParser("parseCaddyfileOCSPConfig", "ocsp", "config.OCSPConfig")
+
+	l.p("/-! ## caddyfile.go -/\n")
+	topB.emit(l, "TopField")
+	crlB.emit(l, "CrlField")
+	cdpB.emit(l, "CdpField")
+	ocspB.emit(l, "OcspField")
+	l.p("def caddyFacts : CaddyFacts :=")
+	l.p("  { top := topBlock, crl := crlBlock, cdp := cdpBlock, ocsp := ocspBlock")
+	l.p("    initCrl := %v, initCdp := %v, initOcsp := %v }\n", initCrl, initCdp, initOcsp)
+	facts["caddyfile"] = map[string]interface{}{"blocks": []blockFacts{topB, crlB, cdpB, ocspB},
+		"initCrl": initCrl, "initCdp": initCdp, "initOcsp": initOcsp}
+}
+
+// ---- configparser.go -----------------------------------------------------------------------
+
+// durationNs evaluates a constant duration expression: N, N * time.Unit, time.Unit * N, time.Duration(N), named const.
+func (c *ctx) durationNs(rel string, e ast.Expr) int64 {
+	units := map[string]int64{"time.Nanosecond": 1, "time.Microsecond": 1e3, "time.Millisecond": 1e6,
+		"time.Second": 1e9, "time.Minute": 60e9, "time.Hour": 3600e9}
+	switch x := e.(type) {
+	case *ast.BasicLit:
+		if x.Kind == token.INT {
+			n, err := strconv.ParseInt(x.Value, 0, 64)
+			if err == nil {
+				return n
+			}
+		}
+	case *ast.ParenExpr:
+		return c.durationNs(rel, x.X)
+	case *ast.SelectorExpr:
+		if u, ok := units[exprStr(x)]; ok {
+			return u
+		}
+	case *ast.BinaryExpr:
+		if x.Op == token.MUL {
+			return c.durationNs(rel, x.X) * c.durationNs(rel, x.Y)
+		}
+	case *ast.CallExpr:
+		if exprStr(x.Fun) == "time.Duration" && len(x.Args) == 1 {
+			return c.durationNs(rel, x.Args[0])
+		}
+	case *ast.Ident:
+		for _, d := range c.file(rel).Decls {
+			gd, ok := d.(*ast.GenDecl)
+			if !ok || gd.Tok != token.CONST {
+				continue
+			}
+			for _, s := range gd.Specs {
+				vs := s.(*ast.ValueSpec)
+				for i, n := range vs.Names {
+					if n.Name == x.Name && i < len(vs.Values) {
+						return c.durationNs(rel, vs.Values[i])
+					}
+				}
+			}
+		}
+	}
+	fail("%s: cannot evaluate duration constant %s", c.pos(e), c.src(e))
+	return 0
+}
+
+// recogniseDurationParser:
+//
+//	if len(X.F) > 0 { duration, err := time.ParseDuration(X.F); if err != nil { return err }; X.FParsed = duration } else { X.FParsed = <const> }
+//	return nil
+func (c *ctx) recogniseDurationParser(fn, field string) int64 {
+	fd := c.funcDecl("configparser.go", "", fn)
+	if len(fd.Type.Params.List) != 1 || len(fd.Type.Params.List[0].Names) != 1 {
+		fail("%s: %s: one parameter expected", c.pos(fd), fn)
+	}
+	x := fd.Type.Params.List[0].Names[0].Name
+	b := fd.Body.List
+	if len(b) != 2 || c.src(b[1]) != "return nil" {
+		fail("%s: %s: expected `if …; return nil`", c.pos(fd), fn)
+	}
+	ifs, ok := b[0].(*ast.IfStmt)
+	if !ok || ifs.Init != nil || exprStr(ifs.Cond) != "len("+x+"."+field+")>0" || len(ifs.Body.List) != 3 {
+		fail("%s: %s: condition/then-branch not recognised", c.pos(b[0]), fn)
+	}
+	m := regexp.MustCompile(`^(\w+), err := time\.ParseDuration\(` + x + `\.` + field + `\)$`).FindStringSubmatch(c.src(ifs.Body.List[0]))
+	if m == nil {
+		fail("%s: %s: time.ParseDuration call not recognised", c.pos(ifs.Body.List[0]), fn)
+	}
+	if c.src(ifs.Body.List[1]) != "if err != nil { return err }" {
+		fail("%s: %s: ParseDuration error is not returned", c.pos(ifs.Body.List[1]), fn)
+	}
+	if c.src(ifs.Body.List[2]) != x+"."+field+"Parsed = "+m[1] {
+		fail("%s: %s: parsed duration is not assigned to %sParsed", c.pos(ifs.Body.List[2]), fn, field)
+	}
+	eb, ok := ifs.Else.(*ast.BlockStmt)
+	if !ok || len(eb.List) != 1 {
+		fail("%s: %s: else branch not recognised", c.pos(ifs), fn)
+	}
+	as, ok := eb.List[0].(*ast.AssignStmt)
+	if !ok || as.Tok != token.ASSIGN || len(as.Lhs) != 1 || exprStr(as.Lhs[0]) != x+"."+field+"Parsed" {
+		fail("%s: %s: else branch does not assign %sParsed", c.pos(eb), fn, field)
+	}
+	return c.durationNs("configparser.go", as.Rhs[0])
+}
+
+// recogniseCertListParser: X.<parsed> = make(...); for _, f := range X.<files> { cert, err := parseCertFromFile(f); if err != nil { return err }; append }; return nil
+func (c *ctx) recogniseCertListParser(fn, filesField, parsedField string) {
+	fd := c.funcDecl("configparser.go", "", fn)
+	x := fd.Type.Params.List[0].Names[0].Name
+	b := fd.Body.List
+	if len(b) != 3 || c.src(b[2]) != "return nil" {
+		fail("%s: %s: expected init, loop, return nil", c.pos(fd), fn)
+	}
+	if c.src(b[0]) != x+"."+parsedField+" = make([]*x509.Certificate, 0)" {
+		fail("%s: %s: initialisation not recognised", c.pos(b[0]), fn)
+	}
+	rs, ok := b[1].(*ast.RangeStmt)
+	if !ok || exprStr(rs.X) != x+"."+filesField || exprStr(rs.Key) != "_" || len(rs.Body.List) != 3 {
+		fail("%s: %s: loop over %s not recognised", c.pos(b[1]), fn, filesField)
+	}
+	v := exprStr(rs.Value)
+	m := regexp.MustCompile(`^(\w+), err := parseCertFromFile\(` + v + `\)$`).FindStringSubmatch(c.src(rs.Body.List[0]))
+	if m == nil || c.src(rs.Body.List[1]) != "if err != nil { return err }" ||
+		c.src(rs.Body.List[2]) != fmt.Sprintf("%s.%s = append(%s.%s, %s)", x, parsedField, x, parsedField, m[1]) {
+		fail("%s: %s: loop body not recognised", c.pos(rs), fn)
+	}
+}
+
+// errChecked: stmts[i] is `err := f(arg)` or `err = f(arg)` and stmts[i+1] is `if err != nil { return err }`; returns f, arg.
+func (c *ctx) errCheckedCall(stmts []ast.Stmt, i int) (string, string, bool) {
+	if i+1 >= len(stmts) {
+		return "", "", false
+	}
+	m := regexp.MustCompile(`^err :?= ([\w.]+)\(([\w., ]*)\)$`).FindStringSubmatch(c.src(stmts[i]))
+	if m == nil || c.src(stmts[i+1]) != "if err != nil { return err }" {
+		return "", "", false
+	}
+	return m[1], m[2], true
+}
+
+var logCall = regexp.MustCompile(`^[\w.]*[lL]ogger\.(Info|Debug|Warn)\(.*\)$`)
+
+func (c *ctx) isLog(s ast.Stmt) bool { return logCall.MatchString(c.src(s)) }
+
+func (c *ctx) stripLogs(stmts []ast.Stmt) []ast.Stmt {
+	var out []ast.Stmt
+	for _, s := range stmts {
+		if !c.isLog(s) {
+			out = append(out, s)
+		}
+	}
+	return out
+}
+
+func leanBool(s string) string {
+	if s == "true" || s == "false" {
+		return s
+	}
+	fail("boolean literal expected, got %s", s)
+	return ""
+}
+
+func (c *ctx) genLoad(l *leanFile, facts map[string]interface{}) {
+	l.p("/-! ## configparser.go -/\n")
+	// zero values
+	zero := func(typ string) string {
+		return leanConst(&ast.Ident{Name: c.iotaConsts("config/config.go", typ)[0]})
+	}
+	modeZero, sigZero, storageZero, fetchZero := zero("RevocationCheckMode"), zero("SignatureValidationMode"), zero("StorageType"), zero("CRLFetchMode")
+	sig := c.recogniseEnumParser(c.funcDecl("configparser.go", "", "parseSignatureValidationMode"), "SignatureValidationMode", "SignatureValidationModeParsed", sigZero)
+	sig.emit(l, "parseSignatureValidationMode", "SigMode")
+	sto := c.recogniseEnumParser(c.funcDecl("configparser.go", "", "parseStorageType"), "StorageType", "StorageTypeParsed", storageZero)
+	sto.emit(l, "parseStorageType", "Storage")
+	fet := c.recogniseEnumParser(c.funcDecl("configparser.go", "", "parseCDPConfig"), "CRLFetchMode", "CRLFetchModeParsed", fetchZero)
+	fet.emit(l, "parseCRLFetchMode", "FetchMode")
+	intervalNs := c.recogniseDurationParser("parseUpdateInterval", "UpdateInterval")
+	cacheNs := c.recogniseDurationParser("parseDefaultCacheDuration", "DefaultCacheDuration")
+	c.recogniseCertListParser("parseTrustedCrlSignerCerts", "TrustedSignatureCertsFiles", "TrustedSignatureCerts")
+	c.recogniseCertListParser("parseTrustedOcspResponderCerts", "TrustedResponderCertsFiles", "TrustedResponderCerts")
+
+	// parseCRLConfig
+	fd := c.funcDecl("configparser.go", "", "parseCRLConfig")
+	x := fd.Type.Params.List[0].Names[0].Name
+	stmts := c.stripLogs(fd.Body.List)
+	if len(stmts) == 0 || c.src(stmts[len(stmts)-1]) != "return nil" {
+		fail("%s: parseCRLConfig does not end in `return nil`", c.pos(fd))
+	}
+	stmts = stmts[:len(stmts)-1]
+	crlStepOf := map[string]string{"parseSignatureValidationMode": "CrlStep.sigMode", "parseStorageType": "CrlStep.storage",
+		"parseUpdateInterval": "CrlStep.interval", "parseTrustedCrlSignerCerts": "CrlStep.signers"}
+	var crlSteps []string
+	nilCdpFetch, nilCdpStrict := fetchZero, "false"
+	for i := 0; i < len(stmts); {
+		if f, arg, ok := c.errCheckedCall(stmts, i); ok {
+			st, known := crlStepOf[f]
+			if !known || arg != x {
+				fail("%s: parseCRLConfig: unexpected call %s(%s)", c.pos(stmts[i]), f, arg)
+			}
+			crlSteps = append(crlSteps, st)
+			i += 2
+			continue
+		}
+		ifs, ok := stmts[i].(*ast.IfStmt)
+		if !ok || ifs.Init != nil || exprStr(ifs.Cond) != x+".CDPConfig!=nil" {
+			fail("%s: parseCRLConfig: unsupported statement `%s`", c.pos(stmts[i]), c.src(stmts[i]))
+		}
+		then := c.stripLogs(ifs.Body.List)
+		f, arg, ok := c.errCheckedCall(then, 0)
+		if !ok || len(then) != 2 || f != "parseCDPConfig" || arg != x+".CDPConfig" {
+			fail("%s: parseCRLConfig: CDP branch not recognised", c.pos(ifs))
+		}
+		eb, ok := ifs.Else.(*ast.BlockStmt)
+		if !ok || len(eb.List) != 1 {
+			fail("%s: parseCRLConfig: CDP else branch not recognised", c.pos(ifs))
+		}
+		as, ok := eb.List[0].(*ast.AssignStmt)
+		if !ok || as.Tok != token.ASSIGN || len(as.Lhs) != 1 || exprStr(as.Lhs[0]) != x+".CDPConfig" {
+			fail("%s: parseCRLConfig: CDP else branch does not assign CDPConfig", c.pos(eb))
+		}
+		t, kv := c.compositeFields(as.Rhs[0])
+		if t != "config.CDPConfig" || !strings.HasPrefix(c.src(as.Rhs[0]), "&") {
+			fail("%s: parseCRLConfig: CDP default is not &config.CDPConfig{…}", c.pos(as))
+		}
+		for k, v := range kv {
+			switch k {
+			case "CRLFetchMode":
+				if v != `""` {
+					fail("%s: default CDPConfig.CRLFetchMode = %s", c.pos(as), v)
+				}
+			case "CRLFetchModeParsed":
+				nilCdpFetch = leanConst(&ast.Ident{Name: strings.TrimPrefix(v, "config.")})
+			case "CRLCDPStrict":
+				nilCdpStrict = leanBool(v)
+			default:
+				fail("%s: default CDPConfig sets unknown field %s", c.pos(as), k)
+			}
+		}
+		crlSteps = append(crlSteps, "CrlStep.cdp")
+		i++
+	}
+
+	// parseOCSPConfig
+	fd = c.funcDecl("configparser.go", "", "parseOCSPConfig")
+	x = fd.Type.Params.List[0].Names[0].Name
+	stmts = c.stripLogs(fd.Body.List)
+	if len(stmts) == 0 || c.src(stmts[len(stmts)-1]) != "return nil" {
+		fail("%s: parseOCSPConfig does not end in `return nil`", c.pos(fd))
+	}
+	stmts = stmts[:len(stmts)-1]
+	ocspStepOf := map[string]string{"parseDefaultCacheDuration": "OcspStep.cacheDuration", "parseTrustedOcspResponderCerts": "OcspStep.responders"}
+	var ocspSteps []string
+	for i := 0; i < len(stmts); i += 2 {
+		f, arg, ok := c.errCheckedCall(stmts, i)
+		st, known := ocspStepOf[f]
+		if !ok || !known || arg != x {
+			fail("%s: parseOCSPConfig: unsupported statement `%s`", c.pos(stmts[i]), c.src(stmts[i]))
+		}
+		ocspSteps = append(ocspSteps, st)
+	}
+
+	// ParseConfig
+	fd = c.funcDecl("configparser.go", "", "ParseConfig")
+	x = fd.Type.Params.List[0].Names[0].Name
+	stmts = c.stripLogs(fd.Body.List)
+	if len(stmts) == 0 || c.src(stmts[len(stmts)-1]) != "return nil" {
+		fail("%s: ParseConfig does not end in `return nil`", c.pos(fd))
+	}
+	stmts = stmts[:len(stmts)-1]
+	var parseSteps []string
+	nilOcspCache, nilOcspStrict := int64(0), "false"
+	for i := 0; i < len(stmts); {
+		if f, arg, ok := c.errCheckedCall(stmts, i); ok {
+			if f != "parseMode" || arg != x {
+				fail("%s: ParseConfig: unexpected call %s(%s)", c.pos(stmts[i]), f, arg)
+			}
+			parseSteps = append(parseSteps, "ParseStep.mode")
+			i += 2
+			continue
+		}
+		ifs, ok := stmts[i].(*ast.IfStmt)
+		if !ok || ifs.Init != nil {
+			fail("%s: ParseConfig: unsupported statement `%s`", c.pos(stmts[i]), c.src(stmts[i]))
+		}
+		then := c.stripLogs(ifs.Body.List)
+		f, arg, ok := c.errCheckedCall(then, 0)
+		if !ok || len(then) != 2 {
+			fail("%s: ParseConfig: branch body not recognised", c.pos(ifs))
+		}
+		switch exprStr(ifs.Cond) {
+		case x + ".CRLConfig!=nil":
+			if f != "parseCRLConfig" || arg != x+".CRLConfig" || ifs.Else != nil {
+				fail("%s: ParseConfig: CRL branch not recognised", c.pos(ifs))
+			}
+			parseSteps = append(parseSteps, "ParseStep.crl")
+		case x + ".OCSPConfig!=nil":
+			if f != "parseOCSPConfig" || arg != x+".OCSPConfig" {
+				fail("%s: ParseConfig: OCSP branch not recognised", c.pos(ifs))
+			}
+			if ifs.Else == nil {
+				parseSteps = append(parseSteps, "ParseStep.ocsp false")
+				break
+			}
+			eb, ok := ifs.Else.(*ast.BlockStmt)
+			if !ok || len(eb.List) != 1 {
+				fail("%s: ParseConfig: OCSP else branch not recognised", c.pos(ifs))
+			}
+			as, ok := eb.List[0].(*ast.AssignStmt)
+			if !ok || as.Tok != token.ASSIGN || len(as.Lhs) != 1 || exprStr(as.Lhs[0]) != x+".OCSPConfig" {
+				fail("%s: ParseConfig: OCSP else branch does not assign OCSPConfig", c.pos(eb))
+			}
+			t, kv := c.compositeFields(as.Rhs[0])
+			if t != "config.OCSPConfig" || !strings.HasPrefix(c.src(as.Rhs[0]), "&") {
+				fail("%s: ParseConfig: OCSP default is not &config.OCSPConfig{…}", c.pos(as))
+			}
+			for k, v := range kv {
+				switch k {
+				case "TrustedResponderCertsFiles":
+					if v != "make([]string, 0)" && v != "[]string{}" {
+						fail("%s: default OCSPConfig.%s = %s", c.pos(as), k, v)
+					}
+				case "TrustedResponderCerts":
+					if v != "make([]*x509.Certificate, 0)" {
+						fail("%s: default OCSPConfig.%s = %s", c.pos(as), k, v)
+					}
+				case "DefaultCacheDuration":
+					if v != `""` {
+						fail("%s: default OCSPConfig.%s = %s", c.pos(as), k, v)
+					}
+				case "DefaultCacheDurationParsed":
+					for _, el := range as.Rhs[0].(*ast.UnaryExpr).X.(*ast.CompositeLit).Elts {
+						if kvx := el.(*ast.KeyValueExpr); exprStr(kvx.Key) == k {
+							nilOcspCache = c.durationNs("configparser.go", kvx.Value)
+						}
+					}
+				case "OCSPAIAStrict":
+					nilOcspStrict = leanBool(v)
+				default:
+					fail("%s: default OCSPConfig sets unknown field %s", c.pos(as), k)
+				}
+			}
+			parseSteps = append(parseSteps, "ParseStep.ocsp true")
+		default:
+			fail("%s: ParseConfig: unsupported condition %s", c.pos(ifs), exprStr(ifs.Cond))
+		}
+		i++
+	}
+
+	l.p("/-! ## revocation.go -/\n")
+	// validateConfig
+	fd = c.funcDecl("revocation.go", "", "validateConfig")
+	stmts = c.stripLogs(fd.Body.List)
+	if len(stmts) == 0 || c.src(stmts[len(stmts)-1]) != "return nil" {
+		fail("%s: validateConfig does not end in `return nil`", c.pos(fd))
+	}
+	stmts = stmts[:len(stmts)-1]
+	disabledShortcut, guarded := false, false
+	var checks []string
+	if len(stmts) > 0 && c.src(stmts[0]) == "if c.ModeParsed == config.RevocationCheckModeDisabled { return nil }" {
+		disabledShortcut = true
+		stmts = stmts[1:]
+	}
+	if len(stmts) > 1 {
+		fail("%s: validateConfig: unexpected statements", c.pos(fd))
+	}
+	// checks: a chain of `if <cond> { return <error> }` possibly nested in if/else; flattened in evaluation order
+	var walk func(list []ast.Stmt)
+	walk = func(list []ast.Stmt) {
+		for _, s := range list {
+			if c.src(s) == "stat, err := os.Stat(c.CRLConfig.WorkDir)" {
+				continue
+			}
+			ifs, ok := s.(*ast.IfStmt)
+			if !ok || ifs.Init != nil {
+				fail("%s: validateConfig: unsupported statement `%s`", c.pos(s), c.src(s))
+			}
+			var chk string
+			switch exprStr(ifs.Cond) {
+			case "c.CRLConfig==nil":
+				chk = "VCheck.crlNil"
+			case `c.CRLConfig.WorkDir==""`:
+				chk = "VCheck.workDirEmpty"
+			case "err!=nil":
+				chk = "VCheck.statErr"
+			case "stat.IsDir()==false", "!stat.IsDir()":
+				chk = "VCheck.notDir"
+			default:
+				fail("%s: validateConfig: unsupported condition %s", c.pos(ifs), exprStr(ifs.Cond))
+			}
+			if len(ifs.Body.List) != 1 {
+				fail("%s: validateConfig: check body is not a single return", c.pos(ifs))
+			}
+			r, ok := ifs.Body.List[0].(*ast.ReturnStmt)
+			if !ok || len(r.Results) != 1 || exprStr(r.Results[0]) == "nil" {
+				fail("%s: validateConfig: check does not return an error", c.pos(ifs))
+			}
+			checks = append(checks, chk)
+			if ifs.Else != nil {
+				eb, ok := ifs.Else.(*ast.BlockStmt)
+				if !ok {
+					fail("%s: validateConfig: else-if not supported", c.pos(ifs))
+				}
+				walk(eb.List)
+			}
+		}
+	}
+	if len(stmts) == 1 {
+		ifs, ok := stmts[0].(*ast.IfStmt)
+		if ok && ifs.Init == nil && ifs.Else == nil && exprStr(ifs.Cond) == "isCRLCheckingEnabled(c)" {
+			guarded = true
+			walk(ifs.Body.List)
+		} else {
+			walk(stmts)
+		}
+	}
+
+	// UnmarshalCaddyfile
+	fd = c.funcDecl("revocation.go", "CertRevocationValidator", "UnmarshalCaddyfile")
+	stmts = c.stripLogs(fd.Body.List)
+	if len(stmts) < 3 || c.src(stmts[0]) != "caddyConfig, err := parseConfigFromCaddyfile(d)" ||
+		c.src(stmts[1]) != "if err != nil { return err }" || c.src(stmts[len(stmts)-1]) != "return nil" {
+		fail("%s: UnmarshalCaddyfile: frame not recognised", c.pos(fd))
+	}
+	stmts = stmts[2 : len(stmts)-1]
+	var usteps []string
+	copyOf := map[string]string{"c.Mode = caddyConfig.Mode": "UStep.copyMode", "c.CRLConfig = caddyConfig.CRLConfig": "UStep.copyCrl",
+		"c.OCSPConfig = caddyConfig.OCSPConfig": "UStep.copyOcsp"}
+	for i := 0; i < len(stmts); {
+		if st, ok := copyOf[c.src(stmts[i])]; ok {
+			usteps = append(usteps, st)
+			i++
+			continue
+		}
+		f, arg, ok := c.errCheckedCall(stmts, i)
+		if !ok || arg != "c" {
+			fail("%s: UnmarshalCaddyfile: unsupported statement `%s`", c.pos(stmts[i]), c.src(stmts[i]))
+		}
+		switch f {
+		case "parseMode":
+			usteps = append(usteps, "UStep.parseMode")
+		case "validateConfig":
+			usteps = append(usteps, "UStep.validate")
+		default:
+			fail("%s: UnmarshalCaddyfile: unexpected call %s", c.pos(stmts[i]), f)
+		}
+		i += 2
+	}
+
+	// Provision
+	fd = c.funcDecl("revocation.go", "CertRevocationValidator", "Provision")
+	stmts = c.stripLogs(fd.Body.List)
+	if len(stmts) == 0 || c.src(stmts[len(stmts)-1]) != "return nil" {
+		fail("%s: Provision does not end in `return nil`", c.pos(fd))
+	}
+	stmts = stmts[:len(stmts)-1]
+	var psteps []string
+	for i := 0; i < len(stmts); {
+		s := c.src(stmts[i])
+		switch s {
+		case "c.ctx = ctx", "c.logger = ctx.Logger(c)":
+			i++
+			continue
+		case "c.ocspRevocationChecker = &ocsp.OCSPRevocationChecker{}":
+			psteps = append(psteps, "PStep.allocOcsp")
+			i++
+			continue
+		case "if isCRLCheckingEnabled(c) { c.crlRevocationChecker = &crl.CRLRevocationChecker{} }":
+			psteps = append(psteps, "PStep.allocCrlIfEnabled")
+			i++
+			continue
+		}
+		if f, arg, ok := c.errCheckedCall(stmts, i); ok {
+			switch {
+			case f == "ParseConfig" && arg == "c":
+				psteps = append(psteps, "PStep.parseConfig")
+			case f == "validateConfig" && arg == "c":
+				psteps = append(psteps, "PStep.validate")
+			case f == "c.ocspRevocationChecker.Provision" && arg == "c.OCSPConfig, c.logger":
+				psteps = append(psteps, "PStep.ocspProvision")
+			default:
+				fail("%s: Provision: unexpected call %s(%s)", c.pos(stmts[i]), f, arg)
+			}
+			i += 2
+			continue
+		}
+		ifs, ok := stmts[i].(*ast.IfStmt)
+		if !ok || ifs.Init != nil || ifs.Else != nil || exprStr(ifs.Cond) != "isCRLCheckingEnabled(c)" {
+			fail("%s: Provision: unsupported statement `%s`", c.pos(stmts[i]), s)
+		}
+		then := c.stripLogs(ifs.Body.List)
+		f, arg, ok := c.errCheckedCall(then, 0)
+		if !ok || len(then) != 2 || f != "c.crlRevocationChecker.Provision" || arg != "c.CRLConfig, c.logger" {
+			fail("%s: Provision: CRL branch not recognised", c.pos(ifs))
+		}
+		psteps = append(psteps, "PStep.crlProvisionIfEnabled")
+		i++
+	}
+
+	l.p("def loadFacts : LoadFacts :=")
+	l.p("  { parseMode := parseMode")
+	l.p("    parseSigMode := parseSignatureValidationMode")
+	l.p("    parseStorage := parseStorageType")
+	l.p("    parseFetchMode := parseCRLFetchMode")
+	l.p("    modeZero := %s, sigZero := %s, storageZero := %s, fetchZero := %s", modeZero, sigZero, storageZero, fetchZero)
+	l.p("    defaultIntervalNs := %d", intervalNs)
+	l.p("    defaultCacheNs := %d", cacheNs)
+	l.p("    nilCdpDefault := { fetchMode := %s, strict := %s }", nilCdpFetch, nilCdpStrict)
+	l.p("    nilOcspDefault := { cacheNs := %d, responders := [], aiaStrict := %s }", nilOcspCache, nilOcspStrict)
+	l.p("    crlSteps := [%s]", strings.Join(crlSteps, ", "))
+	l.p("    ocspSteps := [%s]", strings.Join(ocspSteps, ", "))
+	l.p("    parseSteps := [%s]", strings.Join(parseSteps, ", "))
+	l.p("    crlEnabled := crlEnabled")
+	l.p("    validateDisabledShortcut := %v", disabledShortcut)
+	l.p("    validateGuarded := %v", guarded)
+	l.p("    validateChecks := [%s]", strings.Join(checks, ", "))
+	l.p("    unmarshalSteps := [%s]", strings.Join(usteps, ", "))
+	l.p("    provisionSteps := [%s] }\n", strings.Join(psteps, ", "))
+	facts["load"] = map[string]interface{}{
+		"sigModeCases": sig.cases, "storageCases": sto.cases, "fetchModeCases": fet.cases,
+		"defaultIntervalNs": intervalNs, "defaultCacheNs": cacheNs,
+		"crlSteps": crlSteps, "ocspSteps": ocspSteps, "parseSteps": parseSteps,
+		"validate":       map[string]interface{}{"disabledShortcut": disabledShortcut, "guarded": guarded, "checks": checks},
+		"unmarshalSteps": usteps, "provisionSteps": psteps,
+	}
+}
+
+// ---- struct tags ---------------------------------------------------------------------------
+
+func (c *ctx) jsonTags(rel, typ string) [][2]string {
+	for _, d := range c.file(rel).Decls {
+		gd, ok := d.(*ast.GenDecl)
+		if !ok || gd.Tok != token.TYPE {
+			continue
+		}
+		for _, s := range gd.Specs {
+			ts := s.(*ast.TypeSpec)
+			st, ok := ts.Type.(*ast.StructType)
+			if !ok || ts.Name.Name != typ {
+				continue
+			}
+			var out [][2]string
+			for _, f := range st.Fields.List {
+				if f.Tag == nil {
+					continue
+				}
+				tag := reflect.StructTag(unquote(f.Tag.Value)).Get("json")
+				name := strings.Split(tag, ",")[0]
+				if name == "-" || name == "" {
+					continue
+				}
+				for _, n := range f.Names {
+					out = append(out, [2]string{n.Name, name})
+				}
+			}
+			return out
+		}
+	}
+	fail("struct %s not found in %s", typ, rel)
+	return nil
+}
+
 func genConfig(c *ctx, out string) {
+	l := newLean("Config", "Crv.Config", "Crv.Generated.Mode")
+	l.p("open Crv Crv.Config\n")
+	facts := map[string]interface{}{}
+	c.genCaddyfile(l, facts)
+	c.genLoad(l, facts)
+	l.p("def configFacts : Facts := { caddy := caddyFacts, load := loadFacts }\n")
+	l.p("/-! ## JSON member names (struct tags) -/\n")
+	tags := map[string][][2]string{}
+	for _, t := range []struct{ rel, typ, lean string }{
+		{"revocation.go", "CertRevocationValidator", "jsonTop"}, {"config/config.go", "CRLConfig", "jsonCrl"},
+		{"config/config.go", "CDPConfig", "jsonCdp"}, {"config/config.go", "OCSPConfig", "jsonOcsp"}} {
+		ts := c.jsonTags(t.rel, t.typ)
+		tags[t.typ] = ts
+		var items []string
+		for _, kv := range ts {
+			items = append(items, "("+leanStr(kv[0])+", "+leanStr(kv[1])+")")
+		}
+		l.p("def %s : List (String × String) := [%s]", t.lean, strings.Join(items, ", "))
+	}
+	facts["jsonTags"] = tags
+	l.write(out)
+	c.facts["config"] = facts
 }
